@@ -820,12 +820,25 @@ def run(ctx, replay=None):
             break
     ctx.notes["config_cases"] = done
 
+    known_probe(ctx)
+
     # ---------------- targeted searches
     broken = [b for b in ctx.audit.get("broken", [])]
     if broken:
         targeted_new_keys(ctx, progs)
     if ctx.disagreements:
         targeted_cache(ctx)
+
+
+def known_probe(ctx):
+    """Dedicated probe of the documented finding (prints KNOWN-FINDING while it still fails)."""
+    case = {"kind": "config", "mode": "changed", "pt1": {}, "pt2": {"array.unify-chunks-limit": "8B"}, "pt3": {},
+            "prog": [{"op": "src", "shape": [4], "chunks": [[2, 1, 1]], "mul": 1, "off": -2, "mod": 5, "out": "v1"},
+                     {"op": "src", "shape": [4], "chunks": [[1, 1, 1, 1]], "mul": 3, "off": 4, "mod": 1048576, "out": "v3"},
+                     {"op": "add", "args": ["v3", "v1"], "out": "v4"},
+                     {"op": "broadcast_to", "args": ["v4"], "shape": [1, 4], "out": "v5"}]}
+    for sig, detail in run_config_case(ctx, case, count=False) or []:
+        ctx.fail(sig, case, detail)
 
 
 def targeted_new_keys(ctx, progs):
